@@ -323,6 +323,14 @@ def gssvx_cases(tier, prec="d", purpose="C05"):
             cs.append(xcase(3, C.band(3, 1, 1), hist=13, umode=3, symcols=6, tune="t212")); cs.append(xcase(3, 511, hist=134, trans=121, umode=3, symcols=4, tune="t122"))
             for n_, pat in ((5, C.dense(5, 5)), (6, C.band(6, 2, 2))):
                 for h in (134, 124, 1234): cs.append(xcase(n_, pat, hist=h, trans=1213, symcols=1 << (n_ - 1), tune="t1nn_f1", equil=0, refine=0))
+            # fill-changing refactorization in the large: L-shaped pattern (dense first column + dense last row + diagonal), concrete values steered so that the first factorization
+            # keeps the diagonal (no fill) and every later one pivots on the dense row (complete fill): the storage adopted by SamePattern_SameRowPerm grows during the refactor step
+            # (library allocation: blocks are reallocated; caller workspace: arrays slide in place, vacated bytes poisoned by the repo's guarded hook); B symbolic
+            for n_ in ((8,) if q else (6, 8, 10, 12)):
+                for tn in ("t112_f1", "t214_f1"):
+                    for lw in (0, 6000 if n_ <= 8 else 12000):
+                        for h, tr in ((134, 121), (13, 12)) if q else ((134, 121), (13, 12), (1334, 1213), (1234, 1213) if lw == 0 else (1343, 1211)):
+                            cs.append(xcase(n_, C.lshape(n_), hist=h, trans=tr, symcols=0, tune=tn, nrhs=1, scalemode=4, lworkmode=lw))
         if not q:
             for h in hs2 + hs3 + (1234, 1324, 1334, 1243):
                 for pat in C.all_patterns(2, 2): cs.append(xcase(2, pat, hist=h, trans=1231, symcols=-1 if h < 100 else 2, equil=(pat >> 1) & 1))
@@ -588,7 +596,8 @@ def check_C19(chk, tier):
     run_phase(chk, "gssv(asan)/d", H + "h_gssv.c", gc, ["C19."], prec="d", budget_s=200 if q else 900, bounds="simple driver lifecycle, NC/NR, singular and successful outcomes", **kw)
     xc = [xcase(2, 15, hist=h, trans=t, storage=st, symcols=sc, tune="t1nn_f1") for h, t, st, sc in ((1, 1, 0, -1), (1, 2, 1, -1), (14, 12, 0, 2), (13, 21, 1, 2), (124, 123, 0, 2), (134, 213, 1, 2))] + \
          [xcase(2, 15, lworkmode=-1, storage=st, equil=e) for st in (0, 1) for e in (0, 1)] + [xcase(3, 511, symcols=0, equil=1, refine=1, cond=1, growth=1, nrhs=1, trans=t, storage=st) for t in (1, 2) for st in (0, 1)] + \
-         [xcase(5, C.dense(5, 5), symcols=16, hist=134, trans=121, tune="t1nn_f1")] + [xcase(4, C.arrow(4, False), hist=134, trans=121, symcols=1, tune="t1nn_f1")]
+         [xcase(5, C.dense(5, 5), symcols=16, hist=134, trans=121, tune="t1nn_f1")] + [xcase(4, C.arrow(4, False), hist=134, trans=121, symcols=1, tune="t1nn_f1")] + \
+         [xcase(8, C.lshape(8), hist=134, trans=121, symcols=0, tune=tn, scalemode=4, lworkmode=lw) for tn in ("t112_f1", "t214_f1") for lw in (0, 6000)]     # storage adopted by SamePattern_SameRowPerm grows during the refactor step
     run_phase(chk, "gssvx(asan)/d", H + "h_gssvx.c", xc, ["C19."], prec="d", budget_s=200 if q else 900, bounds="expert driver histories incl. singular results and size queries", key_extra=lambda c: {"storage": str(c[2]), "trans": str(c[16]), "hist": str(c[15])}, **kw)
     kc = [c for c in kernel_cases("quick", "d") if c[0] in (3, 4)][:40] + [c for c in kernel_cases("quick", "d") if c[0] in (1, 2)][:40]
     run_phase(chk, "kernels(asan)/d", H + "h_kernels.c", kc, ["C19.", "C14.factors"], prec="d", budget_s=150, bounds="kernels on real factor pairs", **kw)
